@@ -285,7 +285,7 @@ def coq_case_total(name, c, out, big):
             f"        (tallyR O {emit.tol_lit(REL_TOL * sI, big)} {rvec_lit(infid.reshape(-1))}%Z I))")
     if K is not None:
         sK = max(np.abs(K).max(), sG, 1e-300)
-        shortcut = p.d == 2 and p.basis.btype in ('Pauli', 'GGM')
+        shortcut = bool(p.d == 2 and p.basis.btype in ('Pauli', 'GGM') and p.basis.shape == (4, 2, 2) and p.basis == ff.Basis.pauli(1))
         txt += f"  let K := cumulant_function O {p.d} {cbool(shortcut)} {nk} bs false G G in\n"
         body = (f"  tadd (tallyR O {emit.tol_lit(REL_TOL * sK, big)} {rvec_lit(K.reshape(-1))}%Z (flat_rms K))\n  (" + body.strip() + ")")
     return txt + body + ".\n"
